@@ -149,4 +149,23 @@ PROPS = {
         "components_stub": [],
         "assumptions": _TRUST + ["eigenphases are exact by construction (integer multiples of 2*pi/2^m, commuting terms)"],
     },
+    "C07": {
+        "world": "dsim.worlds.ansatz.AnsatzWorld",
+        "tiers": {"quick": {"runs": 480, "chunk": 3, "run_cap_s": 300, "wall_cap_s": 700},
+                  "thorough": {"runs": 8000, "chunk": 6, "run_cap_s": 600, "wall_cap_s": 2700}},
+        "rule": "one evaluation = one simulated run: one long-lived ansatz object (class, molecule, encoding, ordering and options drawn "
+                "per run from the catalogue of all built-in ansaetze) driven through 4-14 steps: build_circuit (default / keyword incl. "
+                "'random' through the RNG seam / vector), update_var_params (zero-free vectors, exact zeros, sign flips, repeats, values "
+                "beyond 2*pi, the same vector again), set_var_params + build, all-zeros vs reference state, ADAPT operator additions, "
+                "and rejected vectors of wrong length through update/build/set; after every accepted step the circuit is compared "
+                "(reference simulator, |0..0> and two seeded random states, up to global phase) with a fresh instance built with the "
+                "final values, after every rejected vector with fresh(last accepted). Distinct = (ansatz, molecule, mapping, ordering, "
+                "step kind) tuples; non-trivial = run with >=3 steps of >=2 kinds or >=1 rejected vector.",
+        "probes": ["C07.in_place_path", "C07.rebuild_path", "C07.zero_free_vector", "C07.k>=3", "C07.random_keyword_through_seam", "C07.adapt_operator_added"],
+        "components_real": ["UCCSD (RHF/ROHF/UHF), RUCC(1/3), UpCCGSD, UCCGD, HEA, QMF, QCC, ILC, VSQS, pUCCD, ADAPTAnsatz, VariationalCircuitAnsatz, "
+                            "fermion_to_qubit_mapping, SecondQuantizedMolecule + PySCF (data producers)"],
+        "components_stub": [],
+        "assumptions": _TRUST + ["a fresh instance of the same class built with the final vector is the reference ('trivial single-copy system'); "
+                                 "a defect shared by the build path and the update path is invisible to this check"],
+    },
 }
